@@ -226,3 +226,23 @@ def drain(sl):
             sl.load_ref()
     except Exception:
         pass
+
+
+def scramble_object(obj, depth=0, seen=None):
+    """what a caller may do with an object a parser handed over: strip it bare, recursively (a later parse starts from the cell)"""
+    seen = seen if seen is not None else set()
+    if depth > 12 or id(obj) in seen or obj is None:
+        return
+    seen.add(id(obj))
+    if isinstance(obj, dict):
+        for v in list(obj.values()):
+            scramble_object(v, depth + 1, seen)
+        obj.clear()
+    elif isinstance(obj, list):
+        for v in obj:
+            scramble_object(v, depth + 1, seen)
+        del obj[:]
+    elif hasattr(obj, '__dict__') and type(obj).__module__.startswith('pytoniq_core.tlb'):
+        for v in list(vars(obj).values()):
+            scramble_object(v, depth + 1, seen)
+        vars(obj).clear()
